@@ -1,0 +1,13 @@
+// +build linux,!verif
+
+package rawfile
+
+import (
+	"syscall"
+
+	tcpip "github.com/brewlin/net-protocol/protocol"
+)
+
+func verifWrite(fd int, b1, b2 []byte) (*tcpip.Error, bool) { return nil, false }
+
+func verifReadv(fd int, iovecs []syscall.Iovec) (int, *tcpip.Error, bool) { return 0, nil, false }
